@@ -106,6 +106,12 @@ def valid_table(rng, thorough):
                     g = mk_geom(rng, False, N, rng.choice([1, 2]) if use16 else rng.choice([1, 8, 64]), nfats=nfats,
                                 root_entries=re_, use16=use16, slot=rng.below(4))
                     gs.append(("fat16axes", g))
+    # FATs that are EXACTLY full: (N + 2) entries fill the last FAT sector completely (off-by-one territory of the
+    # "FAT covers the clusters" check added with D37)
+    for fat32, Ns in ((False, [4350, 4606, 65278]), (True, [65534, 65662, 131070])):
+        for N in Ns:
+            for nfats in (1, 2):
+                gs.append(("fat_exact", mk_geom(rng, fat32, N, rng.choice([1, 2, 8]), nfats=nfats, slot=rng.below(4))))
     # partition ending just below / exactly at the end of the 32-bit block address space
     for fat32 in (False, True):
         for end in (U32, U32 + 1):
